@@ -342,6 +342,19 @@ def c01(tier):
     tasks += program_tasks(tier, "six", [COMMENTS, DIRECTIVES, CRCOMMENTS, REGIONS], cfg_mode="rotate", sample_every=Q(tier, 499, 4999))
     tasks += mlshape_tasks(tier, "six", cfg_mode="rotate", sample_every=Q(tier, 997, 9973))
     c.explore(tasks, "corpus", ["C01"], sample_cap=Q(tier, 250, 1500))
+    # as the command line delivers it: several files in one invocation (sizes up to a few MiB, BOM forms, a text that starts with U+FEFF)
+    import cli
+    build(("cli",))
+    texts = seed_texts(100)
+    scen = [{"n": [4, 16, 16, 9][i % 4], "big": [0, 300 * 1024, 1300 * 1024, 5 * 1024 * 1024][i % (3 if tier == "quick" else 4)], "seed": SEED * 31 + i} for i in range(Q(tier, 6, 40))]
+    for sc, (problems, skipped) in zip(scen, cli.run_scenarios(lambda i, sc: cli.run_nonblank_batch(i, sc, texts), scen, threads=3)):
+        if skipped:
+            continue
+        c.evaluations += 1
+        c.nontrivial += 1
+        c.extra["cli_batches"] = c.extra.get("cli_batches", 0) + 1
+        for p in problems:
+            c.add_violation({"prop": "C01", "clause": p["clause"], "detail": p["detail"], "case": {"label": "cli-batch", "scenario": sc}, "confirmed_by_tlc": True})
     return c.finish(
         rule="token soup (exhaustive to length 2 over the full alphabet, 3 over the structural one; thorough 3 full), truncated and spliced seeds, random walks, seeds; rotating configurations. "
              "The non-blank sequence of input and output is compared on every call; TLC re-decides C01 (Props.tla) on the sampled and on all flagged sessions.")
@@ -976,6 +989,10 @@ def c18(tier):
         if i % 4 == 1:
             scen[-1]["mode"] = "stdout"
             scen[-1]["n"] = max(n, 13)
+        if i % 7 == 3 and threads == 1:
+            scen[-1]["big"] = [300 * 1024, 1300 * 1024, 5 * 1024 * 1024][(i // 7) % (2 if tier == "quick" else 3)]
+            scen[-1]["n"] = max(scen[-1]["n"], 16)
+            scen[-1]["explicit"] = True
         if i % 6 == 0 and "mode" not in scen[-1] and "missing" not in fail:
             scen[-1]["explicit"] = False
             scen[-1]["extra"] = "missing" if i % 12 == 0 else "inc"
